@@ -17,9 +17,21 @@ async def _aval(W, v, log=None, tag=None):
 
 
 # ---- any_iter: {plain, awaitable} x {list, iterator, async iterator} x {plain items, awaitable items}
-def h_any_iter(n: int, outer_aw: bool, kind: int, items_aw: bool, steps: int, s: int):
+class FutureLike:
+    """An awaitable that also defines __iter__ (the classic future shape)."""
+
+    def __init__(self, coro):
+        self.coro = coro
+
+    def __await__(self):
+        return self.coro.__await__()
+
+    __iter__ = __await__
+
+
+def h_any_iter(n: int, outer_aw: int, kind: int, items_aw: bool, steps: int, s: int):
     """
-    pre: 0 <= n <= P("N", 4) and 0 <= kind <= 3 and 0 <= steps <= P("N", 4) + 1 and 0 <= s <= 1
+    pre: 0 <= n <= P("N", 4) and 0 <= kind <= 4 and 0 <= steps <= P("N", 4) + 1 and 0 <= s <= 1 and 0 <= outer_aw <= 2
     post: _[0]
     post: not _[1]
     """
@@ -35,7 +47,7 @@ def h_any_iter(n: int, outer_aw: bool, kind: int, items_aw: bool, steps: int, s:
     else:
         elems = list(items)
     kd = 0
-    for v in range(4):
+    for v in range(5):
         if kind == v:
             kd = v
     if kd == 0:
@@ -44,9 +56,16 @@ def h_any_iter(n: int, outer_aw: bool, kind: int, items_aw: bool, steps: int, s:
         inner = iter(list(elems))
     elif kd == 2:
         inner = W.source(elems, "agen")
-    else:
+    elif kd == 3:
         inner = W.source(elems, "acls")
-    arg = _aval(W, inner) if outer_aw else inner
+    else:
+        inner = W.source(elems, "bare")
+    if outer_aw == 1:
+        arg = _aval(W, inner)
+    elif outer_aw == 2:
+        arg = FutureLike(_aval(W, inner))
+    else:
+        arg = inner
     ok = True
     try:
         ait = A.any_iter(arg)
@@ -73,7 +92,7 @@ def h_any_iter(n: int, outer_aw: bool, kind: int, items_aw: bool, steps: int, s:
             e.close()
     for v in W.viol:
         ok = fail("any_iter:%s" % v) and ok
-    return finish(ok, len(items) >= 2 and len(got) >= 1, ("any_iter", bool(outer_aw), kd, bool(items_aw), len(items), len(got)))
+    return finish(ok, len(items) >= 2 and len(got) >= 1, ("any_iter", outer_aw, kd, bool(items_aw), len(items), len(got)))
 
 
 # ---- await_each: laziness and order ------------------------------------------------------------
@@ -298,7 +317,7 @@ def h_sync(flavour: int, outcome: int, s: int):
 
 
 GRID = {
-    "h_any_iter": lambda: [(n, o, k, i, st, s) for n in range(4) for o in (False, True) for k in range(4) for i in (False, True) for st in (0, 1, 2, 4) for s in (0, 1)],
+    "h_any_iter": lambda: [(n, o, k, i, st, s) for n in range(4) for o in (0, 1, 2) for k in range(5) for i in (False, True) for st in (0, 1, 2, 4) for s in (0, 1)],
     "h_await_each": lambda: [(n, st, f, s, a) for n in range(4) for st in (0, 1, 2, 4) for f in range(-1, n) for s in (0, 1) for a in (False, True)],
     "h_apply": lambda: [(n, p, f, s, fr, ft) for n in range(5) for p in range(n + 1) for f in range(-1, n) for s in (0, 1) for fr in (False, True) for ft in (0, 1, 2)],
     "h_sync": lambda: [(f, o, s) for f in range(8) for o in (0, 1) for s in (0, 1)],
@@ -319,7 +338,7 @@ def jobs(tier):
 
 LEVEL = "other"
 BOUNDS = {
-    "quick": "any_iter: all 16 combinations {plain, awaitable} x {list, sync iterator, async generator, class-based async iterator} x {plain items, awaitable items}, length 0..4, every number of consumer steps 0..5, awaitables suspending 0..1 times; await_each: length 0..4, steps, one failing awaitable at any position, list or lazy iterable; apply: 0..4 arguments, every positional/keyword split, one failing argument, failing function, function returning a plain value / a custom awaitable / a coroutine (returned as it is); sync: def / async def / partial(async def) / callable object returning a coroutine / lambda returning a coroutine / sync callable object / function returning a non-coroutine awaitable / partial(def), returning or raising",
+    "quick": "any_iter: all 30 combinations {plain, coroutine, future-like awaitable that is also iterable} x {list, sync iterator, async generator, class-based async iterator with / without aclose} x {plain items, awaitable items}, length 0..4, every number of consumer steps 0..5, awaitables suspending 0..1 times; await_each: length 0..4, steps, one failing awaitable at any position, list or lazy iterable; apply: 0..4 arguments, every positional/keyword split, one failing argument, failing function, function returning a plain value / a custom awaitable / a coroutine (returned as it is); sync: def / async def / partial(async def) / callable object returning a coroutine / lambda returning a coroutine / sync callable object / function returning a non-coroutine awaitable / partial(def), returning or raising",
     "thorough": "lengths 0..6",
 }
 OUTSIDE = ["lengths above the bound", "awaitable items that are themselves async iterables"]
